@@ -27,37 +27,37 @@ CHECKS = {
             True),
     "C04": ("venum", "exploration", "bounded-exhaustive enumeration of message lengths and bit positions against an independent BLAKE model",
             "6/C04",
-            "Every message length over 5 (thorough 9) blocks in three byte patterns, every one-hot message at the padding-critical lengths and lengths 2^k-1..2^k+1 are hashed by all 4 variants and compared with a scalar model whose constants are derived from pi and square roots.",
+            "Every message length over 9 (thorough 33) blocks in three byte patterns, every one-hot message at the padding-critical lengths and lengths 2^k-1..2^k+1 are hashed by all 4 variants under CPUID dispatch and under every backend forced through hook H1, in release and overflow-checked builds, and compared with a scalar model whose constants are derived from pi and square roots.",
             "trusts vref::blake (self-tested against all four shipped KAT files incl. the 384/512 files the repository's tests skip)",
             True),
     "C05": ("venum", "exploration", "bounded-exhaustive enumeration over state size x output size x message length against an independent Skein/Threefish model",
             "6/C05",
-            "3 state sizes x 25 output sizes (1..512 bytes, incl. non-multiples of 8 and several output blocks) x every message length over 3 (thorough 5) blocks, plus one-hot messages, compared with UBI over the model's own Threefish.",
+            "3 state sizes x 25 output sizes (1..512 bytes, incl. non-multiples of 8 and several output blocks) x every message length over 4 (thorough 9) blocks, plus one-hot messages, compared with UBI over the model's own Threefish, in release and overflow-checked builds.",
             "trusts vref::skein/threefish (self-tested against the 6 shipped KAT files and the Skein submission's Threefish vectors); output sizes are a list, not all N",
             True),
     "C06": ("venum", "exploration", "bounded-exhaustive enumeration: bit-sliced F8 vs nibble-oriented definition at every input bit position, plus digest length sweep",
             "6/C06",
-            "F8 through the public Compressor is compared with the specification's nibble-oriented F8 for every one-hot bit of the 1024-bit state and of the 512-bit block (and more in thorough); digests of every length over 4 (8) blocks and long messages are compared with the model.",
+            "F8 through the public Compressor and through f8_impl::<M> on every backend is compared with the specification's nibble-oriented F8 for every one-hot bit of the 1024-bit state and of the 512-bit block (and more in thorough); digests of every length over 8 (32) blocks and long messages are compared with the model under CPUID dispatch and under every forced backend.",
             "trusts vref::jh (generated round constants and IVs; self-tested against all 8 NIST KAT files)",
             True),
     "C07": ("venum", "exploration", "bounded-exhaustive enumeration of message lengths incl. block-counter byte boundaries against an independent byte-matrix Groestl model",
             "6/C07",
-            "Every length over 4 (8) blocks in three patterns, one-hot messages at the padding-block boundary and lengths whose block count crosses 255/256 (thorough 65535/65536) for all 4 variants against a byte-matrix model with a generated S-box.",
+            "Every length over 8 (17) blocks in three patterns, one-hot messages at the padding-block boundary and lengths whose block count crosses 255/256 (thorough 65535/65536) for all 4 variants against a byte-matrix model with a generated S-box, in release and overflow-checked builds.",
             "trusts vref::groestl (self-tested against the 4 shipped vector files)",
             True),
     "C08": ("vhist", "model_checking", "exhaustive enumeration of operation histories (update/clone/reset/finalize_reset/finalize, two live instances) executed on the real hashers",
             "6/C08",
-            "Every valid history of 4 (thorough 5) operations over update with 8 block-relative lengths, clone, reset, finalize_reset, finalize with up to two live instances is executed from scratch for each of the 15 hashers; every digest is compared with the one-shot digest and with the reference model; plus every two-piece split.",
+            "Every valid history of 5 (thorough 6) operations over update with 8 block-relative lengths, clone, reset, Digest::finalize_reset, FixedOutput::finalize_fixed_reset, finalize with up to two live instances is executed from scratch for each of the 15 hashers; every digest is compared with the one-shot digest and with the reference model; plus every two-piece split.",
             "stateless search (hashers have private state): no state merging, bound is the history depth",
             True),
     "C09": ("venum", "exploration", "bounded-exhaustive differential enumeration (every key/tweak/block bit) against an independent Threefish model, unrolled and no_unroll builds",
             "6/C09",
-            "Every one-hot key, tweak and block bit, word-boundary values and the parity-word-zero key for all three sizes, in the default and the no_unroll build, against a round-loop model with on-the-fly subkeys.",
+            "Every one-hot key, tweak and block bit, word-boundary values and the parity-word-zero key for all three sizes, through encrypt_block and the slice entry point encrypt_blocks, in the default, the overflow-checked and the no_unroll build, against a round-loop model with on-the-fly subkeys.",
             "trusts vref::threefish (Skein submission vectors); value alphabet",
             True),
     "C10": ("venum", "exploration", "bounded-exhaustive enumeration of both composition orders plus decrypt against the model",
             "6/C10",
-            "On C09's domain: dec(enc(x)) = x, enc(dec(x)) = x and decrypt equals the model's inverse, so compensating errors are not accepted.",
+            "On C09's domain and through both the single-block and the slice entry points: dec(enc(x)) = x, enc(dec(x)) = x and decrypt equals the model's inverse, so compensating errors are not accepted; default, overflow-checked and no_unroll builds.",
             "value alphabet as C09",
             True),
     "C11": ("vhist", "model_checking", "explicit-state BFS over the real cipher object incl. start states after 2^64-k blocks; monitor for atomic exhaustion errors",
@@ -97,7 +97,7 @@ CHECKS = {
             True),
     "C18": ("vsched", "model_checking", "exhaustive enumeration of all call-granularity interleavings of 3-4 threads in cold subprocesses under a baton scheduler, and of instance interleavings in one thread",
             "6/C18",
-            "Every interleaving of the threads' calls (1680 / 2520 schedules per scenario, 6 scenarios) is executed in a fresh process with real OS threads under a baton scheduler, so each lazy global is first touched at every position by every thread, and again on a single thread; per-thread results must equal the reference model. A free-running supplement is labelled sampling.",
+            "Every interleaving of the threads' calls (1680 / 2520 schedules per scenario, 8 scenarios) is executed in a fresh process with real OS threads under a baton scheduler, so each lazy global is first touched at every position by every thread, and again on a single thread; per-thread results must equal the reference model. A free-running supplement is labelled sampling.",
             "switches only between API calls: pre-emption inside Once / CPUID caching / a compression is out of reach (DESIGN.md section 10)",
             True),
     "C19": ("venum", "exploration", "bounded-exhaustive enumeration of every public method x operand alphabet x all rotation amounts x all lane indices against wrapping scalar arithmetic, in two build profiles",
